@@ -86,6 +86,7 @@ def fname(idx):
 
 _DOTS4 = re.compile(r'\.{4,}')
 _WS = re.compile(r'\s')
+_ANSI = re.compile(r'\x1b\[[0-9;?]*[A-Za-z]')
 
 
 def check_pair(got, want, act=None):
@@ -103,7 +104,7 @@ def check_pair(got, want, act=None):
     # L2 monotone: one more leniency never turns a match into a mismatch
     # (runs of >= 4 dots have no defined tokenisation - section 6.6 - also when whitespace deletion or the removal of
     #  a <BLANKLINE> marker that is not alone on its line is what fuses a literal dot with a wildcard)
-    if want and not _DOTS4.search(_WS.sub('', want.replace(ref.MARK, ''))):
+    if want and not _DOTS4.search(_WS.sub('', _ANSI.sub('', want).replace(ref.MARK, ''))):
         for idx in range(32):
             if not act[idx]:
                 continue
